@@ -131,6 +131,10 @@ def renderStmt (n : Names) (dec : VT → Nat → String) : MStmtC → String
   | .store fn a off v => fn ++ "(" ++ memRef n ++ "," ++ addrStr a off ++ "," ++ slotStr v ++ ");"
   | .memSize dst => slotStr dst ++ "=wasmMemorySize(" ++ memRef n ++ ");"
   | .memGrow dst src => slotStr dst ++ "=wasmMemoryGrow(" ++ memRef n ++ "," ++ slotStr src ++ ");"
+  | .rmw dst fn a off args => (match dst with | some d => slotStr d ++ "=" | none => "") ++ fn ++ "(" ++ memRef n ++ "," ++ addrStr a off ++ String.join (args.map fun x => "," ++ slotStr x) ++ ");"
+  | .fence => "atomic_fence();"
+  | .notify dst a off c => slotStr dst ++ "=wasmMemoryAtomicNotify(" ++ memRef n ++ "," ++ slotStr a ++ (if off ≠ 0 then "+" ++ toString off ++ "U" else "") ++ "," ++ slotStr c ++ ");"
+  | .wait dst a off e t is64 => slotStr dst ++ "=wasmMemoryAtomicWait(" ++ memRef n ++ "," ++ slotStr a ++ (if off ≠ 0 then "+" ++ toString off ++ "U" else "") ++ "," ++ slotStr e ++ "," ++ slotStr t ++ "," ++ (if is64 then "true" else "false") ++ ");"
   | .memCopy d s c => "wasmMemoryCopy(" ++ memRef n ++ "," ++ memRef n ++ "," ++ slotStr d ++ "," ++ slotStr s ++ "," ++ slotStr c ++ ");"
   | .memFill d v c => "wasmMemoryFill(" ++ memRef n ++ "," ++ slotStr d ++ "," ++ slotStr v ++ "," ++ slotStr c ++ ");"
   | .memInit seg d s c => "LOAD_DATA(" ++ memVal n ++ "," ++ slotStr d ++ "," ++ String.singleton Gen.dataSegmentNamePrefix ++
